@@ -148,7 +148,8 @@ def null_data_script_pubkey(data: bytes) -> bytes:
     Script pubkey for Null data
     https://developer.bitcoin.org/devguide/transactions.html#null-data
     """
-    return constants.OP_RETURN.to_bytes(1, "big") + len(data).to_bytes(1, "big") + data
+    # script() selects the push opcode by length (payloads of 76-80 bytes need OP_PUSHDATA1)
+    return script(["OP_RETURN", data.hex()])
 
 
 def p2sh_multisig_script_pubkey(m: int, pubkeys: typing.List[bytes]) -> bytes:
